@@ -199,7 +199,7 @@ func init() {
 		Pipe{Name: "strategy/trend.SmmaStrategy", Class: "strategy", Inputs: snapIn, Params: ps("short", "long"),
 			Default: cfgOf(strend.DefaultSmmaStrategyShortPeriod, strend.DefaultSmmaStrategyLongPeriod),
 			// no ordering constraint: Compute synchronises both averages to CommonPeriod, whichever is longer
-			Fields:  []string{"Close"},
+			Fields: []string{"Close"},
 			Make: func(cfg []int) Inst {
 				s := strend.NewSmmaStrategyWith(cfg[0], cfg[1])
 				return stratInst(s, nil)
